@@ -1109,13 +1109,21 @@ func overlap(a, b []int) string {
 	return "partial"
 }
 
-func runCase(c tcase) outcome {
+func runCase(c tcase) (out outcome) {
 	k := &checker{c: c, classes: map[string]int{}}
-	out := outcome{classes: k.classes}
+	out = outcome{classes: k.classes}
 	if c.Poison {
 		poison(c.A)
 		k.classes[c.Part+"/after-poison-call"]++
 	}
+	snapA, snapB, snapC := append([]int(nil), c.A...), append([]int(nil), c.B...), append([]int(nil), c.C...)
+	defer func() {
+		// the operand lists are the caller's: no set operation may leave them changed
+		if out.failKey == "" && k.failKey == "" && (!eqInts(c.A, snapA) || !eqInts(c.B, snapB) || !eqInts(c.C, snapC)) {
+			k.fail("C05/"+c.Part+"/operand-modified", "the operand lists were %v %v %v before the calls and are %v %v %v afterwards", snapA, snapB, snapC, c.A, c.B, c.C)
+			out.failKey, out.failMsg = k.failKey, k.failMsg
+		}
+	}()
 	switch c.Part {
 	case "slices":
 		k.slices()
